@@ -366,3 +366,249 @@ Lemma render_var vars n :
   render vars [TVar n] =
   match assoc n (bindings vars) with Some v => escape_html v | None => [] end.
 Proof. unfold render. cbn. apply app_nil_r. Qed.
+
+(* ---------- query parameters ---------- *)
+Lemma split_at_none sep l a :
+  split_at sep l = (a, None) -> a = l /\ forallb (fun c => negb (c =? sep)) l = true.
+Proof.
+  revert a. induction l as [|c l IH]; cbn; intros a H.
+  - inversion H. auto.
+  - destruct (c =? sep) eqn:E; [discriminate|].
+    destruct (split_at sep l) as [a' b'] eqn:S. inversion H; subst.
+    destruct (IH a' eq_refl) as [-> Hf]. split; [reflexivity|]. cbn. exact Hf.
+Qed.
+
+Lemma split_at_nosep sep l :
+  forallb (fun c => negb (c =? sep)) l = true -> split_at sep l = (l, None).
+Proof.
+  induction l as [|c l IH]; cbn; intro H; [reflexivity|].
+  apply andb_true_iff in H. destruct H as [Hc Hl]. apply negb_true_iff in Hc.
+  rewrite Hc, (IH Hl). reflexivity.
+Qed.
+
+Lemma split_all_fuel_nonempty fuel sep s : split_all_fuel fuel sep s <> [].
+Proof.
+  destruct fuel; cbn; [discriminate|].
+  destruct (split_at sep s) as [a [r|]]; discriminate.
+Qed.
+
+Lemma join_amp_cons x l : l <> [] -> join_amp (x :: l) = x ++ amp :: join_amp l.
+Proof. destruct l; [congruence|reflexivity]. Qed.
+
+Lemma join_split fuel s :
+  (length s <= fuel)%nat -> join_amp (split_all_fuel fuel amp s) = s.
+Proof.
+  revert s. induction fuel as [|f IH]; intros s H.
+  - destruct s; [reflexivity|cbn in H; lia].
+  - cbn [split_all_fuel]. destruct (split_at amp s) as [a [r|]] eqn:S.
+    + apply split_at_some in S. destruct S as [-> _].
+      rewrite join_amp_cons by apply split_all_fuel_nonempty.
+      rewrite IH; [reflexivity|]. rewrite app_length in H. cbn in H. lia.
+    + apply split_at_none in S. destruct S as [-> _]. reflexivity.
+Qed.
+
+Lemma split_join l fuel :
+  l <> [] ->
+  (forall x, In x l -> forallb (fun c => negb (c =? amp)) x = true) ->
+  (length (join_amp l) <= fuel)%nat ->
+  split_all_fuel fuel amp (join_amp l) = l.
+Proof.
+  revert fuel. induction l as [|x l IH]; intros fuel Hne Hno Hlen; [congruence|].
+  destruct l as [|y r].
+  - cbn [join_amp] in *. destruct fuel as [|f].
+    + destruct x; [reflexivity|cbn in Hlen; lia].
+    + cbn [split_all_fuel]. rewrite split_at_nosep by (apply Hno; left; reflexivity). reflexivity.
+  - rewrite join_amp_cons in * by discriminate.
+    destruct fuel as [|f]; [rewrite app_length in Hlen; cbn in Hlen; lia|].
+    cbn [split_all_fuel].
+    rewrite split_at_app by (apply Hno; left; reflexivity).
+    f_equal. apply IH; [discriminate| |].
+    + intros z Hz. apply Hno. right. exact Hz.
+    + rewrite app_length in Hlen. cbn [length] in Hlen. lia.
+Qed.
+
+Lemma comp_no_eq s : forallb is_comp_char s = true -> forallb (fun c => negb (c =? eqc)) s = true.
+Proof.
+  intro H. apply forallb_forall. intros c Hc. rewrite forallb_forall in H. specialize (H c Hc).
+  apply negb_true_iff. apply N.eqb_neq. intro; subst. discriminate.
+Qed.
+
+Lemma parse_kv_print kv : wf_kv kv = true -> parse_kv (print_kv kv) = Some kv.
+Proof.
+  destruct kv as [k v]. unfold wf_kv, print_kv, parse_kv. cbn [fst snd]. intro H.
+  pose proof H as H0. apply andb_true_iff in H. destruct H as [Hk Hv].
+  rewrite split_at_app by (apply comp_no_eq; apply seg_ok_split, Hk).
+  rewrite H0. reflexivity.
+Qed.
+
+Lemma parse_kv_sound s kv : parse_kv s = Some kv -> s = print_kv kv /\ wf_kv kv = true.
+Proof.
+  unfold parse_kv. destruct (split_at eqc s) as [k [v|]] eqn:S; [|discriminate].
+  destruct (seg_ok is_comp_char k && seg_ok is_val_char v) eqn:E; [|discriminate].
+  intro H. inversion H; subst. apply split_at_some in S. destruct S as [-> _].
+  split; [reflexivity|exact E].
+Qed.
+
+Lemma val_no_amp s : forallb is_val_char s = true -> forallb (fun c => negb (c =? amp)) s = true.
+Proof.
+  intro H. apply forallb_forall. intros c Hc. rewrite forallb_forall in H. specialize (H c Hc).
+  apply negb_true_iff. apply N.eqb_neq. intro; subst. discriminate.
+Qed.
+Lemma comp_no_amp s : forallb is_comp_char s = true -> forallb (fun c => negb (c =? amp)) s = true.
+Proof.
+  intro H. apply forallb_forall. intros c Hc. rewrite forallb_forall in H. specialize (H c Hc).
+  apply negb_true_iff. apply N.eqb_neq. intro; subst. discriminate.
+Qed.
+
+Lemma print_kv_no_amp kv : wf_kv kv = true -> forallb (fun c => negb (c =? amp)) (print_kv kv) = true.
+Proof.
+  destruct kv as [k v]. unfold wf_kv, print_kv. cbn [fst snd]. intro H.
+  apply andb_true_iff in H. destruct H as [Hk Hv].
+  rewrite forallb_app. cbn [forallb].
+  rewrite (comp_no_amp k) by apply seg_ok_split, Hk.
+  rewrite (val_no_amp v) by apply seg_ok_split, Hv. reflexivity.
+Qed.
+
+Lemma parse_kvs_print kvs :
+  forallb wf_kv kvs = true -> parse_kvs (map print_kv kvs) = Some kvs.
+Proof.
+  induction kvs as [|kv kvs IH]; cbn; intro H; [reflexivity|].
+  apply andb_true_iff in H. destruct H as [Hkv Hr].
+  rewrite (parse_kv_print kv Hkv), (IH Hr). reflexivity.
+Qed.
+
+Lemma parse_kvs_sound l kvs :
+  parse_kvs l = Some kvs -> l = map print_kv kvs /\ forallb wf_kv kvs = true.
+Proof.
+  revert kvs. induction l as [|s l IH]; cbn; intros kvs H.
+  - inversion H. auto.
+  - destruct (parse_kv s) as [kv|] eqn:E; [|discriminate].
+    destruct (parse_kvs l) as [rest|] eqn:R; [|discriminate].
+    inversion H; subst. destruct (parse_kv_sound _ _ E) as [-> Hw].
+    destruct (IH rest eq_refl) as [-> Hr]. cbn. rewrite Hw, Hr. auto.
+Qed.
+
+(* a well-formed item list prints to a string without surrounding blanks *)
+Lemma val_char_not_space c : is_val_char c = true -> is_space c = false.
+Proof.
+  unfold is_val_char. intro H.
+  apply orb_true_iff in H. destruct H as [H|H]; [|apply N.eqb_eq in H; subst; reflexivity].
+  apply orb_true_iff in H. destruct H as [H|H]; [|apply N.eqb_eq in H; subst; reflexivity].
+  apply orb_true_iff in H. destruct H as [H|H]; [|apply N.eqb_eq in H; subst; reflexivity].
+  apply orb_true_iff in H. destruct H as [H|H]; [|apply N.eqb_eq in H; subst; reflexivity].
+  apply comp_char_not_space, H.
+Qed.
+
+Lemma join_amp_last l x :
+  join_amp (l ++ [x]) = match l with [] => x | _ => join_amp l ++ amp :: x end.
+Proof.
+  induction l as [|y l IH]; [reflexivity|].
+  destruct l as [|z r].
+  - reflexivity.
+  - change ((y :: z :: r) ++ [x]) with (y :: ((z :: r) ++ [x])).
+    rewrite join_amp_cons by (cbn; discriminate).
+    rewrite IH. rewrite (join_amp_cons y (z :: r)) by discriminate.
+    rewrite <- app_assoc. reflexivity.
+Qed.
+
+Lemma print_kvs_trim kvs :
+  nonempty kvs = true -> forallb wf_kv kvs = true -> trim (print_kvs kvs) = print_kvs kvs.
+Proof.
+  intros Hne Hall. unfold print_kvs.
+  (* first character: first char of the first key; last: last char of the last value *)
+  destruct kvs as [|[k v] rest]; [discriminate|].
+  assert (Hk : exists c k', k = c :: k' /\ is_space c = false).
+  { cbn in Hall. apply andb_true_iff in Hall. destruct Hall as [H _].
+    unfold wf_kv in H. cbn in H. apply andb_true_iff in H. destruct H as [H _].
+    apply seg_ok_split in H. destruct H as [Hn Hf]. destruct k as [|c k']; [discriminate|].
+    exists c, k'. split; [reflexivity|]. cbn in Hf. apply andb_true_iff in Hf.
+    apply comp_char_not_space, Hf. }
+  destruct Hk as (c & k' & -> & Hc).
+  (* decompose the whole list as init ++ [last] *)
+  match goal with |- context [map print_kv ?L] =>
+    assert (Hnn : L <> []) by discriminate;
+    destruct (exists_last Hnn) as (init & [kl vl] & E) end.
+  assert (Hl : exists v' d, vl = v' ++ [d] /\ is_space d = false).
+  { assert (Hin : In (kl, vl) (init ++ [(kl, vl)])) by (apply in_or_app; right; left; reflexivity).
+    rewrite <- E in Hin.
+    rewrite forallb_forall in Hall. specialize (Hall _ Hin).
+    unfold wf_kv in Hall. cbn in Hall. apply andb_true_iff in Hall. destruct Hall as [_ H].
+    apply seg_ok_split in H. destruct H as [Hn Hf].
+    assert (Hvn : vl <> []) by (destruct vl; [discriminate|congruence]).
+    destruct (exists_last Hvn) as (v' & d & ->). exists v', d. split; [reflexivity|].
+    apply val_char_not_space. rewrite forallb_forall in Hf. apply Hf. apply in_or_app. right. left. reflexivity. }
+  destruct Hl as (v' & d & -> & Hd).
+  rewrite E. rewrite map_app. cbn [map]. rewrite join_amp_last.
+  match goal with |- trim ?T = _ => assert (Hshape : exists mid, T = c :: mid ++ [d]) end.
+  { destruct init as [|i0 init'].
+    - cbn in E. inversion E; subst. cbn. unfold print_kv. cbn [fst snd].
+      exists (k' ++ eqc :: v'). cbn. f_equal. rewrite <- app_assoc. cbn. reflexivity.
+    - cbn in E. inversion E; subst i0.
+      cbn [map].
+      match goal with |- exists mid, ?J ++ _ = _ => assert (HJ : exists j, J = c :: j) end.
+      { destruct (map print_kv init') as [|m ms].
+        - cbn. unfold print_kv. cbn. eexists. reflexivity.
+        - rewrite join_amp_cons by discriminate. unfold print_kv at 1. cbn. eexists. reflexivity. }
+      destruct HJ as (j & HJ).
+      rewrite HJ. unfold print_kv. cbn [fst snd].
+      exists (j ++ amp :: kl ++ eqc :: v'). cbn. f_equal.
+      rewrite <- !app_assoc. cbn. f_equal. f_equal. rewrite <- app_assoc. reflexivity. }
+  destruct Hshape as (mid & ->). apply trim_id_snoc; assumption.
+Qed.
+
+Lemma parse_params_print kvs :
+  wf_kvs kvs = true -> parse_params (print_kvs kvs) = Some (params_of kvs).
+Proof.
+  unfold wf_kvs. intro H.
+  apply andb_true_iff in H. destruct H as [H Hproc].
+  apply andb_true_iff in H. destruct H as [H Hnd].
+  apply andb_true_iff in H. destruct H as [Hne Hall].
+  unfold parse_params. rewrite (print_kvs_trim kvs Hne Hall).
+  unfold print_kvs, split_all.
+  rewrite split_join.
+  - rewrite (parse_kvs_print kvs Hall). rewrite Hnd. unfold params_of.
+    destruct (assoc k_process kvs) as [v|]; [|reflexivity].
+    destruct (parse_bool v); [reflexivity|discriminate].
+  - destruct kvs; [discriminate|discriminate].
+  - intros x Hx. apply in_map_iff in Hx. destruct Hx as (kv & <- & Hkv).
+    apply print_kv_no_amp. rewrite forallb_forall in Hall. apply Hall, Hkv.
+  - apply le_n.
+Qed.
+
+Lemma parse_params_sound s p :
+  parse_params s = Some p ->
+  exists kvs, wf_kvs kvs = true /\ trim s = print_kvs kvs /\ p = params_of kvs.
+Proof.
+  unfold parse_params.
+  destruct (parse_kvs (split_all amp (trim s))) as [kvs|] eqn:E; [|discriminate].
+  destruct (keys_nodup kvs) eqn:Hnd; [|discriminate].
+  apply parse_kvs_sound in E. destruct E as [Esplit Hall].
+  assert (Hjoin : trim s = print_kvs kvs).
+  { unfold print_kvs. rewrite <- Esplit. unfold split_all. symmetry. apply join_split. apply le_n. }
+  assert (Hne : nonempty kvs = true).
+  { destruct kvs; [|reflexivity]. cbn in Esplit. exfalso.
+    apply (split_all_fuel_nonempty (length (trim s)) amp (trim s)). exact Esplit. }
+  intro H. exists kvs. split; [|split; [exact Hjoin|]].
+  - unfold wf_kvs. rewrite Hne, Hall, Hnd. cbn [andb].
+    destruct (assoc k_process kvs) as [v|]; [|reflexivity].
+    destruct (parse_bool v); [reflexivity|discriminate].
+  - unfold params_of. destruct (assoc k_process kvs) as [v|].
+    + destruct (parse_bool v); [|discriminate]. inversion H. reflexivity.
+    + inversion H. reflexivity.
+Qed.
+
+Lemma parse_params_rejects s :
+  parse_params s = None <-> ~ exists kvs, wf_kvs kvs = true /\ trim s = print_kvs kvs.
+Proof.
+  split.
+  - intros H (kvs & Hw & E).
+    assert (Hp : parse_params s = parse_params (print_kvs kvs)).
+    { unfold parse_params. rewrite E.
+      unfold wf_kvs in Hw. apply andb_true_iff in Hw. destruct Hw as [Hw _].
+      apply andb_true_iff in Hw. destruct Hw as [Hw _].
+      apply andb_true_iff in Hw. destruct Hw as [Hne Hall].
+      rewrite (print_kvs_trim kvs Hne Hall). reflexivity. }
+    rewrite Hp, (parse_params_print kvs Hw) in H. discriminate.
+  - intro H. destruct (parse_params s) as [p|] eqn:E; [|reflexivity].
+    exfalso. apply H. destruct (parse_params_sound _ _ E) as (kvs & A & B & _). exists kvs. auto.
+Qed.
